@@ -69,6 +69,7 @@ def atom(op, *args) -> Atom:
 
 
 def reset():
+    SCALAR_CONDS.clear()
     BOOLEAN_ATOMS.clear()
     Atom._table.clear()
     Atom._count = 0
@@ -134,6 +135,7 @@ def _pmul(p, q):
 # application (reductions, user callables, indexing) is left untouched.
 ELEMENTWISE = {"exp", "abs", "clamp", "gt", "ge", "lt", "le", "eq", "ne", "and", "or", "not", "log", "sqrt",
                "round", "ceil", "floor", "pow", "mod", "sign", "erf", "lgamma", "max", "min", "heaviside"}
+SCALAR_CONDS: set = set()    # uids of condition atoms that stem from Python-level `if` / conditional expressions (one truth value per call)
 BOOLEAN_ATOMS: set = set()   # uids of atoms used as the condition of a tensor-level where(): boolean by torch's contract
 BOOL_OPS = {"gt", "ge", "lt", "le", "eq", "ne", "and", "or", "not", "isnone", "bool"}
 
@@ -472,6 +474,9 @@ class Facts:
             neg = atom(_NEG[at.op], at.args[0])
             self.m[neg.uid] = not val
 
+    def scalar_only(self):
+        return Facts({k: v for k, v in self.m.items() if k in SCALAR_CONDS})
+
     def lookup(self, c: Rat):
         cst = c.as_const()
         if cst is not None:
@@ -555,11 +560,16 @@ def _restrict_atom(at: Atom, facts: "Facts"):
             r = mk_ite(c2, na, nb, _restricted=True)
             return r if isinstance(r, Rat) else None
         return None
+    inner = facts
     if at.op not in ELEMENTWISE:
-        return None
+        # a Python-level condition has one truth value for the whole call: it may be pushed through any application;
+        # element-wise (tensor) conditions may not
+        inner = facts.scalar_only()
+        if not inner.m or at.op in ("sym", "const", "opaque", "lambda", "expr"):
+            return None
     newargs, changed = [], False
     for x in at.args:
-        nx = restrict(x, facts) if isinstance(x, (Rat, tuple)) else x
+        nx = restrict(x, inner) if isinstance(x, (Rat, tuple)) else x
         if nx is not x:
             changed = True
         newargs.append(nx)
@@ -619,11 +629,28 @@ def _has_ite(x, _memo={}):
     if isinstance(x, Atom):
         v = _memo.get(x.uid)
         if v is None:
-            v = x.op == "ite" or (x.op in ELEMENTWISE and any(_has_ite(y) for y in x.args))
+            v = x.op == "ite" or (x.op in ELEMENTWISE and any(_has_ite(y) for y in x.args)) \
+                or (x.op not in ELEMENTWISE and any(_has_scalar_ite(y) for y in x.args))
             if len(_memo) > 200000:
                 _memo.clear()
             _memo[x.uid] = v
         return v
+    return False
+
+
+def _has_scalar_ite(x) -> bool:
+    """An ite with a Python-level condition occurs somewhere inside x (through any application)."""
+    if isinstance(x, Rat):
+        return any(_has_scalar_ite(a) for a in x.atoms())
+    if isinstance(x, tuple):
+        return any(_has_scalar_ite(y) for y in x)
+    if isinstance(x, Atom):
+        if x.op == "ite":
+            cs: dict = {}
+            _atomic_conds(x.args[0], cs)
+            if cs and all(u in SCALAR_CONDS for u in cs):
+                return True
+        return any(_has_scalar_ite(y) for y in x.args)
     return False
 
 
@@ -661,6 +688,13 @@ def _collect_conds(x, out: dict, seen: set):
         elif at.op in ELEMENTWISE:
             for y in at.args:
                 _collect_conds(y, out, seen)
+        else:
+            sub: dict = {}
+            for y in at.args:
+                _collect_conds(y, sub, seen) if isinstance(y, (Rat, tuple)) else None
+            for u, a_ in sub.items():
+                if u in SCALAR_CONDS:
+                    out[u] = a_
 
 
 def lift(x, depth=0):
